@@ -461,6 +461,18 @@ def arm_conv(R, b, v, bs, sk, nf, a, f, container, where):
                   "sites=%d none-self merges=%d" % (len(a["sites"]), len(first)))
         else:
             s1 = first[0]
+            # whatever the field's error type answers (Continue or Break), that answer is handed to the container's error type
+            handed = set()
+            for m_ in merges:
+                if m_ is s1:
+                    continue
+                for a_ in v.alts(m_.payload):
+                    a_ = strip_refs(canon(v, a_))
+                    if a_[0] == "field" and a_[2] in ("Continue", "Break") and isinstance(a_[1], tuple) and a_[1][0] == "call" and a_[1][1] == s1.bb:
+                        handed.add(a_[2])
+            if handed != {"Continue", "Break"}:
+                R.bad("C11.TRYFROM", body, "the field error type's %s answer to the failure of %s is not handed over to the container's error type%s" % (
+                    "/".join(sorted({"Continue", "Break"} - handed)), fn, where), b.span)
             oth = canon(v, s1.payload)
             if not (oth[0] == "field" and oth[2] == "Err" and oth[1][0] == "call" and oth[1][1] == cbb):
                 R.bad("C11.TRYFROM", body, "what is handed over is not the error returned by %s%s" % (fn, where), b.span)
